@@ -5,6 +5,7 @@ package sr25519
 import (
 	"github.com/oasisprotocol/curve25519-voi/curve"
 	"github.com/oasisprotocol/curve25519-voi/curve/scalar"
+	"github.com/oasisprotocol/curve25519-voi/internal/scalar128"
 	"github.com/oasisprotocol/curve25519-voi/internal/verif"
 	"github.com/oasisprotocol/curve25519-voi/primitives/merlin"
 )
@@ -241,6 +242,9 @@ func vh_C12_batch() {
 	bv := NewBatchVerifier()
 	single := make([]bool, n)
 	flagged := false
+	var pks []*PublicKey
+	var sigs []*Signature
+	var sts, sts2 []*SigningTranscript
 	for i := 0; i < n; i++ {
 		var pkb [32]byte
 		verif.AnyBytes("pk"+string(rune('0'+i)), pkb[:])
@@ -262,6 +266,8 @@ func vh_C12_batch() {
 		ctx := NewSigningContext([]byte("ctx"))
 		single[i] = pk.Verify(ctx.NewTranscriptBytes(msg[:]), sig)
 		flagged = flagged || pk.point == nil || sig.s == nil || !curve.RDecodes(sig.rCompressed[:])
+		pks, sigs = append(pks, pk), append(sigs, sig)
+		sts, sts2 = append(sts, ctx.NewTranscriptBytes(msg[:])), append(sts2, ctx.NewTranscriptBytes(msg[:]))
 		bv.Add(pk, ctx.NewTranscriptBytes(msg[:]), sig)
 	}
 	verif.Assert(bv.anyInvalid == flagged, "Add flags exactly the entries with an uninitialised key/signature or an undecodable R")
@@ -269,7 +275,58 @@ func vh_C12_batch() {
 		got := bv.VerifyBatchOnly(nil)
 		if n == 0 || flagged {
 			verif.Assert(!got, "VerifyBatchOnly: false for an empty batch and for a batch with a flagged entry")
+			return
 		}
+		// well-formed entries: the batch equation of schnorrkel's verify_batch, with one INDEPENDENT 128-bit
+		// coefficient per entry drawn from the delinearisation transcript
+		//   V-RNG transcript: all A_i, then all R_i, then 16 witness bytes of every signing transcript;
+		//   rng = witness rng of that transcript keyed with 32 bytes of entropy;  z_i = next 16 bytes of rng;
+		//   [-sum z_i s_i]B + sum [z_i]R_i + sum [z_i k_i]A_i  is the identity
+		vr := merlin.NewTranscript("V-RNG")
+		for i := 0; i < n; i++ {
+			vr.AppendMessage("", pks[i].compressed[:])
+		}
+		for i := 0; i < n; i++ {
+			vr.AppendMessage("", sigs[i].rCompressed[:])
+		}
+		for i := 0; i < n; i++ {
+			wr, _ := sts[i].t.BuildRng().Finalize(&fixedReader{make([]byte, 32)})
+			var w [16]byte
+			_, _ = wr.Read(w[:])
+			vr.AppendMessage("", w[:])
+		}
+		ent := make([]byte, 32)
+		verif.AnyBytes("rand#1", ent)
+		zr, _ := vr.BuildRng().Finalize(&fixedReader{ent})
+		zero := verif.BVHex("0", 256)
+		bco := zero
+		var zs, ks []verif.BV
+		for i := 0; i < n; i++ {
+			var zb [32]byte
+			_, _ = zr.Read(zb[:16])
+			// (a draw of exactly 0 is replaced by 2^128; the real code keeps its 32-byte buffer across entries, so
+			// after such a draw - probability 2^-128 - the NEXT coefficient also carries bit 128: still a valid
+			// non-zero coefficient, not a finding; the comparison is made for non-zero draws)
+			verif.Assume(!verif.BVLE(zb[:16]).Eq(verif.BVHex("0", 128)))
+			scalar128.FixRawRangeVartime(&zb)
+			z := verif.BVLE(zb[:])
+			var sb [32]byte
+			_ = sigs[i].s.ToBytes(sb[:])
+			k := deriveVerifyChallengeScalar(pks[i], sts2[i], sigs[i])
+			var kb [32]byte
+			_ = k.ToBytes(kb[:])
+			bco = scalar.GAdd(bco, scalar.GMul(z, verif.BVLE(sb[:])))
+			zs = append(zs, z)
+			ks = append(ks, scalar.GMul(z, verif.BVLE(kb[:])))
+		}
+		acc := curve.RMsmStep(zero, scalar.GNegS(bco), curve.Rid(curve.RISTRETTO_BASEPOINT_POINT))
+		for i := 0; i < n; i++ {
+			acc = curve.RMsmStep(acc, zs[i], curve.RPoint(sigs[i].rCompressed[:]))
+		}
+		for i := 0; i < n; i++ {
+			acc = curve.RMsmStep(acc, ks[i], curve.Rid(pks[i].point))
+		}
+		verif.Assert(got == curve.RIsIdentity(acc), "VerifyBatchOnly evaluates schnorrkel's batch equation with one independent coefficient per entry")
 		return
 	}
 	all, valid := bv.Verify(nil)
@@ -293,4 +350,63 @@ func vh_C12_batch() {
 	if flagged {
 		verif.Assert(!all, "a batch with a malformed entry is never reported valid")
 	}
+}
+
+// ---------------- signing contexts and transcripts (schnorrkel context.rs) ----------------
+//   context(c)         = Transcript("SigningContext"); append("", c)
+//   bytes(m)           = clone; append("sign-bytes", m)
+//   hash256/512(h)     = clone; append("sign-256" / "sign-512", digest)
+//   xof(x)             = clone; append("sign-XoF", 32 bytes of x)
+// and the context object itself never moves: a second transcript from the same context is what a fresh context
+// would give.
+
+type fixedHash struct {
+	sum []byte
+}
+
+func (f *fixedHash) Write(p []byte) (int, error) { return len(p), nil }
+func (f *fixedHash) Sum(b []byte) []byte         { return append(b, f.sum...) }
+func (f *fixedHash) Reset()                      {}
+func (f *fixedHash) Size() int                   { return len(f.sum) }
+func (f *fixedHash) BlockSize() int              { return 64 }
+
+//verif:ob prop=C12 name=SigningContext_transcripts mode=bv tags=purego use=strobe.kf_keccak split=nc:0..2;kind:0..3
+func vh_C12_context() {
+	nc, kind := verif.Case("nc"), verif.Case("kind")
+	c := make([]byte, nc)
+	verif.AnyBytes("c", c)
+	m := make([]byte, 2)
+	verif.AnyBytes("m", m)
+	ctx := NewSigningContext(c)
+	ref := merlin.NewTranscript("SigningContext")
+	ref.AppendMessage("", c)
+	verif.Assert(merlin.VerifSameTranscript(ctx.t, ref), "NewSigningContext(c) = Transcript(\"SigningContext\") + append(\"\", c)")
+	want := ref.Clone()
+	var got *SigningTranscript
+	switch kind {
+	case 0:
+		got = ctx.NewTranscriptBytes(m)
+		want.AppendMessage("sign-bytes", m)
+	case 1, 2:
+		n := 32 * kind
+		d := make([]byte, n)
+		verif.AnyBytes("digest", d)
+		got = ctx.NewTranscriptHash(&fixedHash{d})
+		if kind == 1 {
+			want.AppendMessage("sign-256", d)
+		} else {
+			want.AppendMessage("sign-512", d)
+		}
+	case 3:
+		x := make([]byte, 40)
+		verif.AnyBytes("xof", x)
+		got = ctx.NewTranscriptXOF(&fixedReader{x})
+		want.AppendMessage("sign-XoF", x[:32])
+	}
+	verif.Assert(merlin.VerifSameTranscript(got.t, want), "the transcript is the context plus exactly one labelled message")
+	verif.Assert(merlin.VerifSameTranscript(ctx.t, ref), "the context itself is unchanged by producing a transcript")
+	again := ctx.NewTranscriptBytes(m)
+	w2 := ref.Clone()
+	w2.AppendMessage("sign-bytes", m)
+	verif.Assert(merlin.VerifSameTranscript(again.t, w2), "a later transcript from the same context is what a fresh context gives")
 }
